@@ -387,6 +387,36 @@ func bodyClosure(p *core.Program, pkgPath string, info *types.Info, body ast.Nod
 	return out
 }
 
+// callSite: a static call of a function, with the function it sits in and its innermost enclosing literal.
+type callSite struct {
+	fn   *core.FuncRef
+	call *ast.CallExpr
+	lit  *ast.FuncLit
+}
+
+// staticCallers: the static call sites of fn in its own package (an unexported helper has no others).
+func staticCallers(p *core.Program, fn *core.FuncRef) []callSite {
+	var out []callSite
+	if fn.Obj == nil {
+		return nil
+	}
+	for _, g := range p.AllFuncs() {
+		if g.Pkg != fn.Pkg || g.Decl.Body == nil || g.Obj == fn.Obj {
+			continue
+		}
+		info := g.Info()
+		core.WalkStack(g.Decl.Body, func(n ast.Node, stack []ast.Node) bool {
+			if call, ok := n.(*ast.CallExpr); ok {
+				if f, ok := core.Callee(info, call).(*types.Func); ok && f == fn.Obj {
+					out = append(out, callSite{g, call, core.InnermostFuncLit(stack)})
+				}
+			}
+			return true
+		})
+	}
+	return out
+}
+
 // loopCount recognises a counted loop and returns the expression it counts to: `for i := 0; i < N; i++`,
 // `for i := 1; i <= N; i++`, `for i := N; i > 0; i--`, `for i := N - 1; i >= 0; i--` (the usual ways of doing
 // something N times). ok is false for any other loop.
